@@ -86,6 +86,9 @@ func runOne(ctx context.Context, solver, file string, timeout time.Duration, see
 // Solve discharges one obligation: first the proof-oriented encoding; if that gives no definite answer,
 // the macro encoding (equivalent, friendlier to model finding) is tried.
 func Solve(o *Obligation, cfg *SolverCfg) {
+	if o.Static {
+		return
+	}
 	solveWith(o, cfg, o.SMT, "")
 	if o.Result == "unsat" || o.Result == "sat" || o.Kind == "vacuity" {
 		return
